@@ -1,180 +1,81 @@
 """C01 - GLR accepts exactly the grammar's language and returns only valid
 derivations (DESIGN.md section 8, shape A)."""
-import time
-
-from pgmc import spaces
-from pgmc.drive import (BudgetExceeded, Monitor, build, grammar_from_string,
-                        install_state_budget, parse)
-from pgmc.findings import Judge, Known
+from pgmc import glrsweep
+from pgmc.findings import Known
 from pgmc.glrcmp import ForestCmp
-from pgmc.ref.cfg import CharRef
 
 PROP = "C01"
 KNOWN = Known(PROP)
 FLOOR = {"quick": 1000, "thorough": 5000}
-NTS = ("S", "A")
-CHUNK = 40
-
-# (space, lexmaps, layouts, input alphabet, max input length)
-SPACES = {
-    "k3": dict(nts=("S", "A"), ts=("a", "b"), r=2, k=3),
-    "k4": dict(nts=("S", "A"), ts=("a", "b"), r=2, k=4),
-    "r3": dict(nts=("S", "A"), ts=("a", "b"), r=3, k=3),
-    "n3": dict(nts=("S", "A", "B"), ts=("a", "b"), r=2, k=4),
-}
+worker_init = glrsweep.worker_init
+ALL = ("M0", "M1", "M2", "M3", "M4")
 
 
 def plan(tier, seed):
-    """list of (space, index filter, lexmaps, ws list, alphabet, nmax)"""
     if tier == "quick":
         return [
-            ("k3", None, ("M0", "M1", "M2", "M3", "M4"), (" ",), "ab ", 4),
+            dict(space="k3", lexmaps=ALL, wss=(" ",), alpha="ab ", nmax=4),
             # seed-rotated, fully enumerated window of the thorough domain
-            ("k4", (seed, 40), ("M0", "M3"), (" ",), "ab ", 4),
+            dict(space="k4only", win=(seed, 40), lexmaps=("M0", "M3"),
+                 wss=(" ",), alpha="ab ", nmax=4),
         ]
     return [
-        ("k3", None, ("M0", "M1", "M2", "M3", "M4"), (" ", ""), "ab ", 5),
-        ("k4", None, ("M0",), (" ",), "ab ", 5),
-        ("k4", None, ("M1", "M2", "M3", "M4"), (" ",), "ab ", 4),
-        ("r3", None, ("M0", "M3"), (" ",), "ab ", 4),
-        ("n3", None, ("M0",), (" ",), "ab ", 4),
+        dict(space="k3", lexmaps=ALL, wss=(" ", ""), alpha="ab ", nmax=5),
+        dict(space="k4only", lexmaps=("M0",), wss=(" ",), alpha="ab ", nmax=5),
+        dict(space="k4only", lexmaps=("M1", "M2", "M3", "M4"), wss=(" ",),
+             alpha="ab ", nmax=4),
+        dict(space="r3", lexmaps=("M0", "M3"), wss=("",), alpha="ab", nmax=4),
+        dict(space="n3", lexmaps=("M0",), wss=("",), alpha="ab", nmax=4),
     ]
 
 
 def units(tier, seed):
-    out = []
-    for space, win, lexmaps, wss, alpha, nmax in plan(tier, seed):
-        n = len(spaces.grammars(**SPACES[space]))
-        idxs = list(range(n)) if win is None else list(
-            spaces.window(n, win[0], win[1]))
-        for lm in lexmaps:
-            for ws in wss:
-                for i in range(0, len(idxs), CHUNK):
-                    out.append({"space": space, "idx": idxs[i:i + CHUNK],
-                                "lexmap": lm, "ws": ws, "alpha": alpha,
-                                "nmax": nmax})
-    return out
+    return glrsweep.make_units(plan(tier, seed))
 
 
-def check_case(judge, mon, stats, ref, parsers, gk, text, lm, ws, s, nts):
-    an = ref.analyse(s)
-    for tables, p in parsers:
-        cfg = f"{lm}/ws={ws!r}/{tables}"
-        case = {"grammar": text, "parser": "glr",
-                "options": {"tables": tables, "ws": ws}, "input": s}
-        shifts0 = mon.transitions
-        o = parse(p, s, mon)
-        stats["evaluations"] += 1
-        key = o.kind
-        stats["outcomes"][key] = stats["outcomes"].get(key, 0) + 1
-        if o.kind == "ok":
-            if not an.sentence:
-                judge.deviation(None, cfg, gk, s, "accepted a non-sentence",
-                                {"outcome": "ok"}, case)
-                continue
-            cmp = ForestCmp(an, o.value.result, nts[0], ref.prods)
-            if cmp.local or cmp.surplus:
-                judge.deviation(
-                    "GLR-INVALID-TREE", cfg, gk, s,
-                    "forest contains a tree that is not a derivation of the input",
-                    {"local": cmp.local[:5], "surplus": cmp.surplus[:5],
-                     "mode": cmp.mode}, case)
-            if an.count >= 2 or cmp.own_count != 1:
-                stats["nontrivial"] += 1
-        elif o.kind == "syntax":
-            if an.sentence:
-                judge.deviation("GLR-REJECTS-SENTENCE", cfg, gk, s,
-                                "SyntaxError on a sentence",
-                                {"outcome": o.brief()}, case)
-            elif o.exc.location.start_position and \
-                    o.exc.location.start_position > 0:
-                stats["nontrivial"] += 1
-        else:
-            judge.deviation(
-                "GLR-WRONG-EXCEPTION" if o.kind == "exc" else None,
-                cfg, gk, s,
-                f"parse ended with {o.brief()} instead of a forest or SyntaxError",
-                {"outcome": o.kind,
-                 "type": type(o.exc).__name__ if o.exc else None,
-                 "sentence": an.sentence}, case)
-
-
-def worker_init():
-    install_state_budget(400)
+def check_case(ctx, an, s, p, o):
+    st = ctx.stats
+    if o.kind == "ok":
+        if not an.sentence:
+            ctx.deviation(None, s, "accepted a non-sentence", {"outcome": "ok"})
+            return
+        cmp = ForestCmp(an, o.value.result, ctx.nts[0], ctx.ref.prods)
+        if cmp.local or cmp.surplus:
+            ctx.deviation(
+                "GLR-INVALID-TREE", s,
+                "forest contains a tree that is not a derivation of the input",
+                {"local": cmp.local[:5], "surplus": cmp.surplus[:5],
+                 "mode": cmp.mode})
+        if an.count >= 2 or cmp.own_count != 1:
+            st["nontrivial"] += 1
+    elif o.kind == "syntax":
+        if an.sentence:
+            ctx.deviation("GLR-REJECTS-SENTENCE", s, "SyntaxError on a sentence",
+                          {"outcome": o.brief()})
+        elif (o.exc.location.start_position or 0) > 0:
+            st["nontrivial"] += 1
+    else:
+        ctx.deviation(
+            None, s,
+            f"parse ended with {o.brief()} instead of a forest or SyntaxError",
+            {"outcome": o.kind, "type": type(o.exc).__name__ if o.exc else None,
+             "sentence": an.sentence})
 
 
 def run_unit(u):
-    sp = SPACES[u["space"]]
-    nts = sp["nts"]
-    gs = spaces.grammars(**sp)
-    inputs = spaces.strings(u["alpha"], u["nmax"])
-    mon = Monitor()
-    judge = Judge(PROP, KNOWN)
-    stats = {"evaluations": 0, "nontrivial": 0, "outcomes": {}, "grammars": 0}
-    samples = []
-    for gi in u["idx"]:
-        prods = gs[gi]
-        gk = spaces.gkey(prods, nts)
-        text = spaces.render_grammar(prods, nts, u["lexmap"])
-        ref = CharRef(spaces.ordered_prods(prods, nts), nts[0],
-                      spaces.LEXMAPS[u["lexmap"]], ws=u["ws"])
-        try:
-            g = grammar_from_string(text)
-            parsers = [(t, build("glr", g, mon, tag=(gi, t), tables=t, ws=u["ws"]))
-                       for t in ("LALR", "SLR")]
-        except (Exception, BudgetExceeded) as e:   # noqa: BLE001
-            judge.deviation("BUILD-FAILS", f"{u['lexmap']}/build", gk, "",
-                            "GLRParser construction failed",
-                            {"type": type(e).__name__}, {"grammar": text})
-            continue
-        stats["grammars"] += 1
-        for s in inputs:
-            check_case(judge, mon, stats, ref, parsers, gk, text, u["lexmap"],
-                       u["ws"], s, nts)
-        if len(samples) < 1:
-            samples.append({"grammar": gk, "lexmap": u["lexmap"], "ws": u["ws"],
-                            "inputs": f"all {len(inputs)} strings over "
-                            f"{u['alpha']!r} up to length {u['nmax']}"})
-    r = judge.result()
-    r.update(stats)
-    r.update(states=len(mon.states), transitions=mon.transitions,
-             traces=mon.traces, samples=samples)
-    return r
+    return glrsweep.sweep(u, PROP, KNOWN, check_case)
 
 
 def evidence(total, tier, seed, complete):
-    cov = {
-        "states": total.get("states", 0),
-        "transitions": total.get("transitions", 0),
-        "traces_validated_against_impl": total.get("traces", 0),
-        "evaluations": total.get("evaluations", 0),
-        "distinct_nontrivial": total.get("nontrivial", 0),
-        "rule": "every grammar of the listed spaces x {LALR,SLR} x lexeme map x "
-                "layout x every input string up to the length bound; a case is "
-                "non-trivial when the reference has >= 2 derivations, the forest "
-                "packs more than one tree, or the input is rejected after at "
-                "least one shifted token; cases are distinct by construction "
-                "(enumeration without repetition)",
-        "samples": total.get("samples", [])[:6],
-        "exhaustive": bool(complete),
-        "domain": [list(map(str, p)) for p in plan(tier, seed)],
-        "grammars": total.get("grammars", 0),
-        "outcomes": total.get("outcomes", {}),
-        "state_definition": "distinct (grammar, table kind, GSS frontier "
-                            "signature at a shift); transitions = executed "
-                            "reductions + shifts; traces = parse() runs "
-                            "compared with the reference chart",
-    }
-    assumptions = [
-        "reference: character-level chart/SPPF (pgmc/ref/cfg.py), independent of LR theory",
-        "bounded: grammars <= k productions over 2-3 nonterminals, rhs <= r, inputs <= n characters",
-        "PYTHONHASHSEED=0 (set order is explored in C16)",
-    ]
-    return cov, assumptions
+    return glrsweep.base_evidence(
+        total, plan(tier, seed), complete,
+        "every grammar of the listed spaces x {LALR,SLR} x lexeme map x layout "
+        "x every input string up to the length bound; a case is non-trivial "
+        "when the reference has >= 2 derivations, the forest packs more than "
+        "one tree, or the input is rejected after at least one shifted token; "
+        "cases are distinct by construction (enumeration without repetition)")
 
 
 def replay(rec):
-    case = rec["case"]
-    from parglare import Grammar
-    g = Grammar.from_string(case["grammar"])
-    raise NotImplementedError
+    from pgmc.replay import replay_glr
+    return replay_glr(rec, PROP, KNOWN, check_case)
